@@ -65,6 +65,30 @@ def to_supp(v):
     return v
 
 
+def check_shared(v):
+    """values that contain one list / dict object several times by identity encode like the equal value built from fresh objects"""
+    u = um()
+    try:
+        sv = to_supp(v)
+    except Exception:
+        return None
+    for label, shared, fresh in (('[x, x]', [sv, sv], [v, v]), ('{a: x, b: x}', {'a': sv, 'b': sv}, {'a': v, 'b': v}),
+                                 ('[x, [x], {k: x}]', [sv, [sv], {'k': sv}], [v, [v], {'k': v}])):
+        try:
+            enc = u.dumps(shared)
+        except Exception as e:
+            return ('shared-container:dumps-raises:%s' % type(e).__name__, '%s with x = %r: %r' % (label, v, e))
+        if enc != ref.encode(fresh) and ref.canon(ref.decode(enc)) != ref.canon(fresh):
+            return ('shared-container:encoding-wrong-value', '%s with x = %r' % (label, v))
+        try:
+            back = u.loads(enc)
+        except Exception as e:
+            return ('shared-container:roundtrip-rejected:%s' % type(e).__name__, label)
+        if ref.canon(back) != ref.canon(fresh):
+            return ('shared-container:roundtrip-differs', label)
+    return None
+
+
 def depth(v):
     if isinstance(v, (list, tuple)):
         return 1 + max([depth(i) for i in v] or [0])
@@ -362,6 +386,12 @@ def w_values(job):
         sh.count('depth>=2' if depth(v) >= 2 else 'depth<2')
         if bad:
             raise Found('value:' + bad[0], {'kind': 'value', 'value': repr(v)}, bad[1])
+        if isinstance(v, (list, dict)):
+            # the same container OBJECT occurring several times in one value (no cycle): [row, row], one dict under two keys
+            bad = check_shared(v)
+            sh.count('shared-container-values')
+            if bad:
+                raise Found('value:' + bad[0], {'kind': 'shared', 'value': repr(v)}, bad[1])
     core.hyp_search(sh, prop, value_strategy(), seed, n)
 
     def prop2(args):
@@ -505,6 +535,11 @@ def replay(case):
             out.append({'signature': 'bytes:' + bad[0], 'case': case, 'detail': bad[1]})
         elif cls == 'insufficient':
             pass
+    elif kind == 'shared':
+        v = eval(case['value'], {'RExt': ref.RExt, 'nan': float('nan'), 'inf': float('inf')})
+        bad = check_shared(v)
+        if bad:
+            out.append({'signature': 'value:' + bad[0], 'case': case, 'detail': bad[1]})
     elif kind in ('value', 'anyfmt'):
         v = eval(case['value'], {'RExt': ref.RExt, 'nan': float('nan'), 'inf': float('inf')})
         if kind == 'value':
